@@ -195,7 +195,32 @@ impl<'tcx> Cx<'tcx> {
             ]),
             Rvalue::RawPtr(_, p) => jobj(&[("k", js("rawptr")), ("place", self.place(body, p))]),
             Rvalue::CopyForDeref(p) => jobj(&[("k", js("copyderef")), ("place", self.place(body, p))]),
-            Rvalue::Discriminant(p) => jobj(&[("k", js("discr")), ("place", self.place(body, p))]),
+            Rvalue::Discriminant(p) => {
+                let pty = p.ty(body, self.tcx).ty;
+                let mut vnames: Vec<String> = Vec::new();
+                if let ty::Adt(adt, _) = pty.kind() {
+                    if adt.is_enum() {
+                        for v in adt.variants().iter() {
+                            vnames.push(js(&v.name.to_string()));
+                        }
+                    }
+                }
+                let mut discrs: Vec<String> = Vec::new();
+                if let ty::Adt(adt, _) = pty.kind() {
+                    if adt.is_enum() {
+                        for (vidx, _) in adt.variants().iter_enumerated() {
+                            discrs.push(js(&format!("{}", adt.discriminant_for_variant(self.tcx, vidx).val)));
+                        }
+                    }
+                }
+                jobj(&[
+                    ("k", js("discr")),
+                    ("place", self.place(body, p)),
+                    ("ty", self.ty(pty)),
+                    ("variants", jarr(&vnames)),
+                    ("discrs", jarr(&discrs)),
+                ])
+            }
             Rvalue::Cast(kind, o, t) => jobj(&[
                 ("k", js("cast")),
                 ("kind", js(&format!("{:?}", kind))),
@@ -334,10 +359,12 @@ impl<'tcx> Cx<'tcx> {
                 }
                 TerminatorKind::Call { func, args, destination, target, .. } => {
                     let argsj: Vec<String> = args.iter().map(|a| self.operand(body, &a.node)).collect();
+                    let argtys: Vec<String> = args.iter().map(|a| self.ty(a.node.ty(body, self.tcx))).collect();
                     let mut f: Vec<(&str, String)> = vec![
                         ("k", js("call")),
                         ("callee", self.callee(did, func)),
                         ("args", jarr(&argsj)),
+                        ("argtys", jarr(&argtys)),
                         ("dest", self.place(body, destination)),
                         ("span", self.span(term.source_info.span)),
                     ];
